@@ -83,7 +83,7 @@ func shortTypeName(t types.Type) string {
 }
 
 // typeKey is a stable identifier for a type, used in heap keys.
-func typeKey(t types.Type) string { return sanitize(shortTypeName(t)) }
+func typeKey(t types.Type) string { return sanitize(shortTypeName(types.Unalias(t))) }
 
 func (s *Sorts) declFun(name, sig string) {
 	if s.funcs[name] {
@@ -98,8 +98,9 @@ func (s *Sorts) SortOf(t types.Type) string {
 	if t == nil {
 		return "Int"
 	}
+	t = types.Unalias(t)
 	switch u := t.(type) {
-	case *types.Named, *types.Alias:
+	case *types.Named:
 		under := t.Underlying()
 		if st, ok := under.(*types.Struct); ok {
 			return s.structSort(typeKey(t), st)
@@ -182,6 +183,15 @@ func (s *Sorts) structSort(name string, st *types.Struct) string {
 		s.decls = append(s.decls, fmt.Sprintf("(declare-datatypes ((%s 0)) (((mk_%s %s))))", name, name, strings.Join(fs, " ")))
 	}
 	return name
+}
+
+// unaliasDeep removes aliases at the top and below one pointer level (enough for dynamic type tags).
+func unaliasDeep(t types.Type) types.Type {
+	t = types.Unalias(t)
+	if p, ok := t.(*types.Pointer); ok {
+		return types.NewPointer(types.Unalias(p.Elem()))
+	}
+	return t
 }
 
 // fieldAcc is the accessor suffix for field i (blank fields get their index).
@@ -285,6 +295,7 @@ func (s *Sorts) StrLit(v string) string {
 
 // TagOf returns the dynamic-type tag for a concrete type.
 func (s *Sorts) TagOf(t types.Type) int {
+	t = unaliasDeep(t)
 	k := types.TypeString(t, nil)
 	if n, ok := s.tags[k]; ok {
 		return n
